@@ -98,6 +98,7 @@ class History:
         self.lock = threading.Lock()
         self.ops = []        # (key, inv_us, resp_us or None, reply or None, args)
         self.problems = []
+        self.stop = None
 
     def add(self, *op):
         with self.lock:
@@ -106,6 +107,8 @@ class History:
     def problem(self, **kw):
         with self.lock:
             self.problems.append(kw)
+        if self.stop is not None:
+            self.stop.set()       # the first problem ends the load: the report is about it
 
 
 def now_us():
@@ -230,6 +233,35 @@ def scenario(ctx, d, binary, nclients, nops, kill=None, tag="v"):
         if err:
             return None, "cluster start-up: " + err, stats
         hist, stop = History(), threading.Event()
+        hist.stop = stop
+        # burst: many connections hammering ONE node (the shape that killed the pinned commit with
+        # 'concurrent map writes'); echoes only, so every reply is checkable
+        def burst(bid):
+            try:
+                c = cluster.client(0, timeout=25.0)
+                for j in range(150):
+                    tok = b"burst%d-%d" % (bid, j)
+                    rep = c.cmd([b"ping", tok])
+                    if rep != "$" + tok.hex():
+                        hist.problem(what="echo came back with someone else's reply (burst on node 1)", sent=repr(tok), got=rep)
+                        return
+                c.close()
+            except (OSError, clusterlib.ConnClosed, socket.timeout) as e:
+                hist.problem(what="connection failed during the burst on node 1", error=repr(e))
+        bts = [threading.Thread(target=burst, args=(b,)) for b in range(16)]
+        for t in bts:
+            t.start()
+        for t in bts:
+            t.join(60)
+        stats["burst_ops"] = 16 * 150
+        if not cluster.alive(0):
+            return dict(kind="node-down", node=1, reason=cluster.crash_reason(0) or cluster.output(0, 1200),
+                        note="16 connections sending PING to one node brought it down; concurrent client load must never bring a node down",
+                        workload=dict(clients=nclients, ops_per_client=nops, seed=ctx.seed, killed=kill)), None, stats
+        if hist.problems:
+            return dict(kind="client-observed", problems=hist.problems[:5],
+                        workload=dict(clients=nclients, ops_per_client=nops, seed=ctx.seed, killed=kill)), None, stats
+        stop.clear()
         ths = [threading.Thread(target=client_thread, args=(cluster, hist, cid, cid % 3, nops, ctx.seed, kill is not None, stop))
                for cid in range(nclients)]
         for t in ths:
@@ -237,12 +269,13 @@ def scenario(ctx, d, binary, nclients, nops, kill=None, tag="v"):
         if kill is not None:
             time.sleep(0.15 + 0.1 * (ctx.seed % 5))
             cluster.kill(kill)
-        deadline = time.time() + 120
+        deadline = time.time() + 60
         for t in ths:
             t.join(max(0.1, deadline - time.time()))
-        if any(t.is_alive() for t in ths):
+        if any(t.is_alive() for t in ths) and not hist.problems:
             stop.set()
-            return dict(kind="clients-hang", note="client threads still waiting for replies after 120 s",
+            return dict(kind="clients-hang", note="client threads still waiting for replies after 60 s (ProposalTimeout is 10 s)",
+                        workload=dict(clients=nclients, ops_per_client=nops, seed=ctx.seed, killed=kill),
                         nodes_alive=[cluster.alive(i) for i in range(3)], killed=kill,
                         crash=[cluster.crash_reason(i) for i in range(3)]), None, stats
         if kill is not None:
@@ -448,7 +481,7 @@ def run(ctx):
         if kf["kind"] == "open":
             obs = known.get(kf["id"])
             print("KNOWN-FINDING: property=%s %s %s%s" % (PID, kf["id"], kf["text"], (" [this run: %s]" % obs) if obs else ""))
-    tot_ops = sum(v.get("ops", 0) for v in vstats)
+    tot_ops = sum(v.get("ops", 0) + v.get("burst_ops", 0) for v in vstats)
     cov.update(dict(
         evaluations=nbatches + tot_ops,
         ready_batches=nbatches, cluster_scenarios=vstats, client_operations=tot_ops,
